@@ -210,14 +210,35 @@ static uintptr_t parseRef(MPT_INTERFACE(metatype) *mt)
 static MPT_INTERFACE(metatype) *parseClone(const MPT_INTERFACE(metatype) *mt)
 {
 	MPT_STRUCT(parseIterator) *it = MPT_baseaddr(parseIterator, mt, _mt);
-	const char *ptr;
+	MPT_INTERFACE(metatype) *ptr;
+	char *sep = (char *) (it + 1);
+	char *text = strchr(sep, 0) + 1;
+	char mark = 0;
 	
+	/* copy complete text without temporary element end */
 	if (it->restore) {
-		ptr = it->restore;
-	} else {
-		ptr = it->val;
+		mark = *it->restore;
+		*it->restore = it->save;
 	}
-	return mpt_iterator_string(ptr, (char *) (it + 1));
+	ptr = mpt_iterator_string(text, sep);
+	if (it->restore) {
+		*it->restore = mark;
+	}
+	/* same position and element state in copy */
+	if (ptr) {
+		MPT_STRUCT(parseIterator) *c = MPT_baseaddr(parseIterator, ptr, _mt);
+		char *base = c->val;
+		c->val = it->val ? base + (it->val - text) : 0;
+		if (!it->end) {
+			c->end = 0;
+		}
+		if (it->restore) {
+			c->restore = base + (it->restore - text);
+			c->save = it->save;
+			*c->restore = mark;
+		}
+	}
+	return ptr;
 }
 
 /*!
